@@ -134,8 +134,8 @@ pub fn check(tier: Tier) -> i32 {
     let budget = Budget::new(wall_cap(tier));
     rep.mandatory_scopes = 2;
     let (l, d) = match tier {
-        Tier::Quick => (3usize, 2usize),
-        Tier::Thorough => (4, 3),
+        Tier::Quick => (4usize, 2usize),
+        Tier::Thorough => (5, 3),
     };
     let sp = StrSpace::chars("targets", SIGMA_TXT, l);
     let mut targets: Vec<Vec<char>> = (0..sp.len()).map(|i| sp.string_at(i).chars().collect()).collect();
